@@ -115,11 +115,16 @@ theorem step_emits {cfg : Cfg} {st : St} {e : Event} {r : St × Stream} (h : ste
     obtain ⟨hw, rfl⟩ := hx
     exact .other hw (by simp) (by simp)
   | pi t d =>
-    simp [step] at h; subst h
-    intro x hx
-    simp at hx
-    obtain ⟨hw, rfl⟩ := hx
-    exact .other hw (by simp) (by simp)
+    unfold step at h
+    by_cases hgt : (List.contains t '>' || List.contains d '>') = true
+    · simp only [hgt, ↓reduceIte, pure_eq_ok, Except.ok.injEq] at h
+      subst h; simp
+    · simp only [hgt, Bool.false_eq_true, ↓reduceIte, pure_eq_ok, Except.ok.injEq] at h
+      subst h
+      intro x hx
+      simp at hx
+      obtain ⟨hw, rfl⟩ := hx
+      exact .other hw (by simp) (by simp)
   | doctype n p s =>
     simp [step] at h; subst h
     intro x hx
